@@ -27,6 +27,9 @@ func zzHostClasses() []zzHostClass {
 		{l + ".com", true}, {"sub." + l + ".org", true}, {l + ".localhost", false}, {l + ".local", false},
 		{l + ".test", false}, {l + ".example", false}, {l + ".invalid", false}, {l + ".home.arpa", false},
 		{"*." + l + ".com", true}, {"*.com", false}, {l + ".*.com", false},
+		// the same reserved suffixes with more labels in front (the suffix is the LAST label)
+		{"www." + l + ".test", false}, {"a." + l + ".example", false}, {"x.y." + l + ".invalid", false}, {"www." + l + ".localhost", false},
+		{l + ".test.com", true},
 	}
 }
 
